@@ -691,7 +691,17 @@ pub fn render_varied(ch: &mut Choices, ag: &AG, kind: YKind) -> (String, YLayout
                 if w.ch.chance(1, 2) {
                     w.s.push(' ');
                 }
+                // 1/6: the padding inside the braces is white space other than blank, tab or line
+                // feed (all of it is trimmed off the action text)
+                let exotic = w.ch.chance(1, 6);
+                if exotic {
+                    w.s.push_str(*w.ch.choose(&["\u{b}", "\u{85}", "\u{2028}", "\u{a0}", "\u{3000} "]));
+                    w.feat("action-padded-with-exotic-white-space");
+                }
                 w.s.push_str(a);
+                if exotic {
+                    w.s.push_str(*w.ch.choose(&["\u{b}", "\u{2029}\u{b}", " \u{85}", "\u{a0}"]));
+                }
                 if w.ch.chance(1, 2) {
                     w.s.push_str(" \n");
                 }
